@@ -193,6 +193,19 @@ MUTATIONS = [
       old="        if is_extensible:\n            sign = _pre.Pregex('+')", new="        if not is_extensible:\n            sign = _pre.Pregex('+')"),
  dict(id="d-decimal-missing-integer-part-always-allowed", kind="break", props=["C16"], file=ESS,
       old="        integer_part = UnsignedInteger(start, end, is_extensible)\n        if start == 0:", new="        integer_part = UnsignedInteger(start, end, is_extensible)\n        if start >= 0:"),
+ # a refactoring that changes the emitted TEXT but not the language ((?:\\w){n,m}): the chain clause is lost, no alarm
+ dict(id="h-word-redundant-group", kind="harmless", props=["C17"], file=ESS,
+      old="        pre = pre.at_least_at_most(n=min_chars, m=max_chars)\n        super().__init__(pre, is_extensible)\n\n\nclass WordContains",
+      new="        pre = pre.group().at_least_at_most(n=min_chars, m=max_chars)\n        super().__init__(pre, is_extensible)\n\n\nclass WordContains"),
+ # ... and one that also changes the language, only for bounds no sampled tuple of the language checks uses
+ dict(id="w-word-lower-bound-off-for-long-words", kind="break", props=["C17"], file=ESS,
+      old="        pre = pre.at_least_at_most(n=min_chars, m=max_chars)\n        super().__init__(pre, is_extensible)\n\n\nclass WordContains",
+      new="        pre = pre.at_least_at_most(n=min_chars + 1 if min_chars > 6 else min_chars, m=max_chars)\n        super().__init__(pre, is_extensible)\n\n\nclass WordContains"),
+ # class forms (G7): the class spelling must equal the method spelling
+ dict(id="q-optional-class-drops-greedy", kind="break", props=["C04", "C02"], file="src/pregex/core/quantifiers.py",
+      old="lambda pre, is_greedy: pre.optional(is_greedy))", new="lambda pre, is_greedy: pre.optional())"),
+ dict(id="h-optional-class-via-at-most-one", kind="harmless", props=["C04", "C02"], file="src/pregex/core/quantifiers.py",
+      old="lambda pre, is_greedy: pre.optional(is_greedy))", new="lambda pre, is_greedy: pre.at_most(1, is_greedy))"),
  # ---- history (C20) ----------------------------------------------------------------------------------------------
  dict(id="s-concat-caches-on-self", kind="break", props=["C20"], file=PRE,
       old="        pattern = self._concat_conditional_group()\n        pre = pre._concat_conditional_group()",
